@@ -38,6 +38,7 @@ type Parser struct {
 	cursor        int
 	line          int
 	blockHandlers map[string]blockHandlerFunc
+	blockLines    map[string]int // line of each {% block %} defined so far in this template
 }
 
 type blockHandlerFunc func(*Parser) (Node, error)
@@ -55,6 +56,7 @@ func (p *Parser) Parse(source string) (Node, error) {
 	p.cursor = 0
 	p.line = 1
 	p.tokenIndex = 0
+	p.blockLines = nil
 
 	// Initialize default block handlers
 	p.initBlockHandlers()
